@@ -394,3 +394,143 @@ func c10TrackerTracksAll(c *Ctx) {
 		c.Fail(rule, "anchor", token.NoPos, "no track* method of protoFileTracker found")
 	}
 }
+
+// ---- C12 (after round-6 seeds C12-q, C12-r) ------------------------------------------------------------------------
+
+// c12PackageMeansPackage (PACKAGE-MEANS-PACKAGE): a package name in a filter means that package - the include side and
+// the exclude side must agree on it, or `include: acme.pay.v1.Payment, exclude: acme` contradicts itself. Whoever
+// resolves a name through imageIndex.Packages reads the same members of the package entry: if one reader follows
+// subPackages, all do. (Today none does.)
+func c12PackageMeansPackage(c *Ctx, pk *packages.Package) {
+	const rule = "PACKAGE-MEANS-PACKAGE"
+	c.Rule(rule, "the include and exclude sides resolve a package name to the same set of files", 1)
+	p := c.P
+	type reader struct {
+		f    *ssa.Function
+		subs bool
+	}
+	var readers []reader
+	for _, sf := range p.SSAFuncsOf([]*packages.Package{pk}) {
+		looksUp := false
+		subs := false
+		for _, f := range allSSAFuncs(sf) {
+			for _, b := range f.Blocks {
+				for _, ins := range b.Instrs {
+					switch t := ins.(type) {
+					case *ssa.Lookup:
+						if u, ok := stripConv(t.X).(*ssa.UnOp); ok {
+							if fa, ok := u.X.(*ssa.FieldAddr); ok && strings.HasSuffix(fieldName(fa.X.Type(), fa.Field), "imageIndex.Packages") {
+								looksUp = true
+							}
+						}
+					case *ssa.FieldAddr:
+						if strings.HasSuffix(fieldName(t.X.Type(), t.Field), "packageInfo.subPackages") {
+							subs = true
+						}
+					}
+				}
+			}
+		}
+		if looksUp && sf.Signature.Recv() != nil {
+			readers = append(readers, reader{sf, subs})
+		}
+	}
+	if len(readers) < 2 {
+		c.Fail(rule, "anchor", token.NoPos, "expected an include and an exclude reader of imageIndex.Packages, found %d", len(readers))
+		return
+	}
+	any := false
+	for _, r := range readers {
+		any = any || r.subs
+	}
+	for _, r := range readers {
+		c.Ob(rule, ssaFuncName(r.f)+"/sub-packages", r.f.Pos(), r.subs == any, true, "follows sub-packages: %v; some reader of imageIndex.Packages does: %v", r.subs, any)
+	}
+}
+
+// c12KeptUnlessExcluded (KEPT-UNLESS-EXCLUDED): with no include list, every non-import file of the image is added to
+// the closure unless it was excluded - a file that declares no types (options only, or a hub of `import public`) is
+// still a file of the image and is kept by being added. In the loop of the filter that adds whole files, the only
+// branches that pass over a file ask whether it is an import or whether its mode is `excluded`.
+func c12KeptUnlessExcluded(c *Ctx, pk *packages.Package) {
+	const rule = "KEPT-UNLESS-EXCLUDED"
+	c.Rule(rule, "the exclude-only filter passes over a file only because it is an import or excluded", 1)
+	p := c.P
+	n := 0
+	for _, sf := range p.SSAFuncsOf([]*packages.Package{pk}) {
+		for _, call := range callsIn(sf) {
+			o := staticCalleeObj(call.Call)
+			if o == nil || o.Name() != "addElement" || sf.Name() == "addElement" {
+				continue
+			}
+			u := call.Instr.Block()
+			var h *ssa.BasicBlock
+			var loop map[*ssa.BasicBlock]bool
+			for _, b := range sf.Blocks {
+				if l := loopBlocks(b); l != nil && l[u] && (loop == nil || len(l) < len(loop)) {
+					h, loop = b, l
+				}
+			}
+			if h == nil || (h.Comment != "rangeindex.loop" && h.Comment != "rangeiter.loop") {
+				continue
+			}
+			// a loop over the image's files: the ranged value comes from an invoke of Files()
+			overFiles := false
+			for _, b := range sf.Blocks {
+				for _, ins := range b.Instrs {
+					if cl, ok := ins.(*ssa.Call); ok && cl.Call.IsInvoke() && cl.Call.Method.Name() == "Files" && b.Dominates(h) {
+						overFiles = true
+					}
+				}
+			}
+			if !overFiles {
+				continue
+			}
+			n++
+			var bad []string
+			for b := range loop {
+				i := ifOf(b)
+				if i == nil || b == u || u.Dominates(b) || b == h {
+					continue
+				}
+				reaches, skips := false, false
+				for _, s := range b.Succs {
+					if !loop[s] {
+						continue
+					}
+					if s == u || blockReachesAvoiding(s, u, h) {
+						reaches = true
+					} else {
+						skips = true
+					}
+				}
+				if !(reaches && skips) {
+					continue
+				}
+				cv, _ := condPolarity(i.Cond)
+				okCond := false
+				if cl, isCall := stripConv(cv).(*ssa.Call); isCall && cl.Call.IsInvoke() && cl.Call.Method.Name() == "IsImport" {
+					okCond = true
+				}
+				if bo, isBin := cv.(*ssa.BinOp); isBin && (bo.Op == token.EQL || bo.Op == token.NEQ) {
+					for _, op := range []ssa.Value{bo.X, bo.Y} {
+						if cst, ok := op.(*ssa.Const); ok && strings.HasSuffix(namedPath(cst.Type()), "closureInclusionMode") {
+							okCond = true
+						}
+					}
+				}
+				if !okCond {
+					at := i.Cond.Pos()
+					for k := len(b.Instrs) - 1; k >= 0 && at == token.NoPos; k-- {
+						at = b.Instrs[k].Pos()
+					}
+					bad = append(bad, p.Pos(at))
+				}
+			}
+			c.Ob(rule, ssaFuncName(sf)+"/whole-file-loop", call.Pos(), len(bad) == 0, true, "branches that pass over a file for another reason than IsImport / excluded: %v", bad)
+		}
+	}
+	if n == 0 {
+		c.Fail(rule, "anchor", token.NoPos, "no loop over image.Files() adding whole files to the closure found")
+	}
+}
